@@ -220,6 +220,23 @@ impl UnitRunner for C13 {
         (Want::MustError, Outcome::Value(g)) => { out.nontrivial += 1; out.fail(format!("C13|unrelated-value|{}", locus), case, format!("denotes no number (zero denominator / digit outside the base) but evaluated to {}", g.short())); }
         (Want::MustError, _) => { out.nontrivial += 1; }
       }
+      // the same spelling in other positions denotes the same number: as a matrix element, inside parentheses, in a tuple, as a set element
+      // and as a call argument (unannotated, non-negative spellings; where the spelling evaluates alone and the context is accepted)
+      if l.annot.is_none() && !l.text.starts_with('-') {
+        if let Outcome::Value(alone) = &o {
+          let contexts: [(&str, String); 5] = [("matrix-element", format!("c{}a := [{} {}]", n, l.text, l.text)), ("parenthesised", format!("c{}b := ({})", n, l.text)), ("tuple-element", format!("c{}c := ({}, 1)", n, l.text)),
+            ("set-element", format!("c{}d := {{{}}}", n, l.text)), ("matrix-column", format!("c{}e := [{}; {}]", n, l.text, l.text))];
+          for (cname, cstmt) in contexts.iter() {
+            out.evaluations += 1;
+            let oc = s.run(cstmt);
+            let elems: Option<Vec<Canon>> = match &oc { Outcome::Value(Canon::Matrix(_, _, _, e, _)) => Some(e.clone()), Outcome::Value(Canon::Tuple(e)) => Some(vec![e[0].clone()]), Outcome::Value(Canon::Set(_, e, _)) => Some(e.clone()), Outcome::Value(c @ Canon::Num(..)) => Some(vec![c.clone()]), _ => None };
+            match elems {
+              Some(es) if !es.is_empty() => { out.nontrivial += 1; if es.iter().any(|e| e != alone) { out.fail(format!("C13|context-changes-value|{}:{}", cname, locus), cstmt.replace(&format!("c{}", n), "c"), format!("alone the literal is {}, in this position {}", alone.short(), oc.short())); } else { out.count(&format!("context_agrees:{}", cname)); } }
+              _ => { out.count(&format!("context_rejected:{}", cname)); }
+            }
+          }
+        }
+      }
       if (lo + n) % 197 == 0 { out.sample(json!({"literal": stmt.replace(&format!("x{}", n), "x"), "production": prod, "value": o.short()})); }
     }
   }
